@@ -356,7 +356,11 @@ func c11Disabled(w *World, r *Report) {
 		for _, in := range b.Instrs {
 			if mu, ok := in.(*ssa.MapUpdate); ok {
 				if mm, ok := mu.Map.(*ssa.MakeMap); ok {
-					if _, isStruct := mm.Type().Underlying().(*types.Map).Elem().Underlying().(*types.Struct); isStruct {
+					_, isStruct := mm.Type().Underlying().(*types.Map).Elem().Underlying().(*types.Struct)
+				if cb, isC := constBool(mu.Value); isBoolType(mm.Type().Underlying().(*types.Map).Elem()) && isC && cb {
+					isStruct = true // a set written as map[string]bool holding only true
+				}
+				if isStruct {
 						// guarded by the false edge of an Enabled load
 						var disabled []Edge
 						for _, bb := range fn.Blocks {
@@ -390,9 +394,32 @@ func c11Disabled(w *World, r *Report) {
 	var notIn []Edge
 	for _, b := range fn.Blocks {
 		for _, in := range b.Instrs {
-			if lk, ok := in.(*ssa.Lookup); ok && lk.X == ssa.Value(rm) && lk.CommaOk && lk.Referrers() != nil {
+			if lk, ok := in.(*ssa.Lookup); ok && lk.X == ssa.Value(rm) && lk.Referrers() != nil {
+				boolSet := isBoolType(rm.Type().Underlying().(*types.Map).Elem())
+				if boolSet {
+					for _, rf := range *rm.Referrers() {
+						if mu, ok := rf.(*ssa.MapUpdate); ok && mu.Map == ssa.Value(rm) {
+							if cb, isC := constBool(mu.Value); !isC || !cb {
+								boolSet = false // not a set: some entry may hold false
+							}
+						}
+					}
+					if !boolSet {
+						continue
+					}
+				}
+				if !lk.CommaOk {
+					if boolSet { // set[name] of a map[string]bool that only ever holds true
+						for _, e := range condEdges(lk) {
+							if !e.truth {
+								notIn = append(notIn, e.Edge)
+							}
+						}
+					}
+					continue
+				}
 				for _, rf := range *lk.Referrers() {
-					if ex, ok := rf.(*ssa.Extract); ok && ex.Index == 1 {
+					if ex, ok := rf.(*ssa.Extract); ok && (ex.Index == 1 || (ex.Index == 0 && boolSet)) {
 						for _, e := range condEdges(ex) {
 							if !e.truth {
 								notIn = append(notIn, e.Edge)
